@@ -611,7 +611,9 @@ class Flow:
             clo, env = self._closure_of(fid, args[-1])
             if clo is not None:
                 acc.add(("via", short(name)))
-                return self._apply_closure(fid, clo, env, args[:-1], rest, acc)
+                # the closure produces the *elements* of the resulting sequence: an element index on the query is dropped
+                r2 = tuple(rest[1:]) if rest and rest[0].startswith("[") else rest
+                return self._apply_closure(fid, clo, env, args[:-1], r2, acc)
         if re.search(r"ops::Fn(Mut|Once)?<.*>>::call(_mut|_once)?$", name) and args:
             clo, env = self._closure_of(fid, args[0])
             if clo is not None:
